@@ -1381,9 +1381,9 @@ carquet_status_t carquet_read_next_page(
 
     /* Calculate how many values to return from the current page */
     int32_t available = reader->page_num_values - reader->page_values_read;
-    int32_t to_copy = (int32_t)max_values;
-    if (to_copy > available) {
-        to_copy = available;
+    int32_t to_copy = available;
+    if (max_values < (int64_t)available) {
+        to_copy = (int32_t)max_values;   /* compare in 64 bits: max_values may exceed INT32_MAX */
     }
 
     if (to_copy <= 0) {
